@@ -29,8 +29,8 @@ impl Property for C10 {
     }
     fn config(&self, tier: Tier) -> PropConfig {
         match tier {
-            Tier::Quick => PropConfig { cases: 40_000, max_tape: 300, shards: 8 },
-            Tier::Thorough => PropConfig { cases: 1_200_000, max_tape: 500, shards: 16 },
+            Tier::Quick => PropConfig { cases: 300000, max_tape: 300, shards: 12 },
+            Tier::Thorough => PropConfig { cases: 4800000, max_tape: 500, shards: 16 },
         }
     }
     fn run_case(&self, reg: &Registry, shape: usize, tape: &[u8], st: &mut Stats) -> CaseResult {
@@ -103,8 +103,21 @@ impl Property for C10 {
                                 model::put_uint(&mut stream[base + f.off..base + f.off + f.size], x, f.be);
                             }
                             _ => {
-                                let p = t.below(f.size);
-                                stream[base + f.off + p] = 0xff;
+                                if t.bool() {
+                                    let p = t.below(f.size);
+                                    stream[base + f.off + p] = 0xff;
+                                } else {
+                                    // incomplete multi-byte sequence at the very end of the string
+                                    let txt = std::str::from_utf8(&msgs.images[j].bytes[f.off..f.off + f.size]).unwrap();
+                                    let ls = txt.char_indices().last().map(|(i, _)| i).unwrap_or(0);
+                                    let x = match f.size - ls {
+                                        1 => 0xC3u8,
+                                        2 => 0xE2,
+                                        3 => 0xF1,
+                                        _ => 0xff,
+                                    };
+                                    stream[base + f.off + ls] = x;
+                                }
                             }
                         }
                         expect_parse_after = Some(j);
